@@ -28,6 +28,10 @@ CLAIMS = {
          "NOT covered: the normal approximation for large samples; sizes beyond the bounds; NaN inputs assumed away. Two open known findings (two-sided p-value with ties) are listed in known_findings.json and reported as KNOWN-FINDING"),
  "C13": ("bounded symbolic execution of the real benchmath assumptions on symbolic float samples: most-frequent-value centre and warnings of the exact model, order-statistic interval, median bracketing and binomial coverage of the assume-nothing model, sizes/threshold/unit-interval/reordering/rescaling/swap/exact-permutation value of comparisons, and the delta/range rendering rules on arbitrary floats (cvc5 floating-point queries)",
          "bounded by sample sizes (<= 12) and |x| <= 1e300; normal-model numerics outside; symbolic number formatting is opaque"),
+ "C14": ("partial: bounded symbolic execution of the real pipeline ProjectionParser -> Filter.Apply -> benchtab.Builder.Add -> ToTables for the default flags and three variants on results whose configuration, names, file labels and units are symbolic: each filtered measurement is in exactly one cell once, two measurements share a cell exactly when unit/table/row/column keys agree, each cell's summary and comparison equal fresh calls of the unit's assumption on its sample and on the first column's cell, residue warnings appear exactly when merged results differ in an unprojected key",
+         "NOT covered: CLI flag parsing and file I/O, geomean rows, rendering; measurement values concrete; goroutines sequentialised"),
+ "C15": ("partial: map iteration order and line permutation only. The pipeline of C14 is run twice in one symbolic path, the second time with every small map iterated in an arbitrary symbolically chosen order, and the CSV bytes must be identical; results are added in every permutation and each cell's sample and centre must be identical",
+         "NOT covered and not claimable with this technique: goroutine interleavings, GOMAXPROCS, data races (the engine runs goroutines to completion at the spawn point; the Go memory model is not encoded)"),
  "C16": ("partial: the column-header tree only. Bounded symbolic execution of NewKeyHeader on keys projected from symbolic results: at every level the cells are adjacent non-empty runs that partition their parent's span, every column under a cell carries its value, adjacent cells differ, depth equals the number of fields",
          "NOT covered: the fixed-width text layout (texttab) and text/CSV agreement"),
  "C17": ("partial: gating, direction, order, fence. Bounded symbolic execution of Collection.AddResults/Tables, Sort and Metrics.computeStats with symbolic measurement values (number parser stubbed), symbolic p/alpha through the public DeltaTest hook: delta shown iff no error and p < alpha, percentage formula, better-direction flag, note classes, first-appearance or stable sorted row order, retained values exactly those inside the 1.5-IQR fences",
